@@ -47,7 +47,28 @@ func ruleSyncGuards(c *Ctx) {
 				continue
 			}
 			n++
-			res := f.CheckGate(f.Entry(), map[*cfgBlock]bool{w.blk: true}, Guard{ID: "slot-content", Doc: "the slot's current content is compared before it is cleared",
+			// the test must be made in the critical section that contains the write: start from the lock acquisitions
+			// from which the write is reachable without passing another acquisition
+			locks := f.CallSites("sync.(*RWMutex).Lock", "sync.(*Mutex).Lock")
+			lockBlocks := blocksOf(locks)
+			var from []*cfgBlock
+			for _, l := range locks {
+				avoid := map[*cfgBlock]bool{}
+				for b := range lockBlocks {
+					if b != l.blk {
+						avoid[b] = true
+					}
+				}
+				r := f.reach(l.blk.Succs, avoid, nil)
+				if _, ok := r[w.blk]; ok || l.blk == w.blk {
+					from = append(from, l.blk)
+				}
+			}
+			if len(from) == 0 {
+				c.Fail(fmt.Sprintf("bqueue.Run.slot-clear#%d", n), c.P.Pos(as.Pos()), "a ring slot is cleared outside any critical section of queueLock")
+				continue
+			}
+			res := f.CheckGate(from, map[*cfgBlock]bool{w.blk: true}, Guard{ID: "slot-content", Doc: "the slot's current content is compared, under the same lock acquisition, before it is cleared",
 				Alts: [][]string{{"pkg/network/bqueue#queue"}}, Whole: true, Extra: []string{"pkg/network/bqueue#nilQ", "pkg/network/bqueue.(Indexable).GetIndex"}}, nil)
 			// the comparison must be in the same critical section as the write: no unlock/lock between them is checked by lock-pairing + below
 			key := fmt.Sprintf("bqueue.Run.slot-clear#%d", n)
